@@ -473,9 +473,11 @@ def _inline_into(h: _Helper, caller) -> int:
         if isinstance(last, ast.Return) and isinstance(last.value, ast.Name) and last.value.id in h.locals:
             res = rename.get(last.value.id, last.value.id)
         else:
-            res = f"{h.name.strip('_')}_result"
-            if res in caller_names:
-                return None
+            res = base_res = f"{h.name.strip('_')}_result"
+            i_res = 2
+            while res in caller_names:      # an earlier site of the same helper in this caller took the plain name
+                res = f"{base_res}_{i_res}"
+                i_res += 1
 
         def make(val):
             if isinstance(val, ast.Name) and val.id == res:
